@@ -8,6 +8,7 @@ import (
 	"go/constant"
 	"go/types"
 	"math/big"
+	"regexp"
 	"sort"
 	"strings"
 )
@@ -114,6 +115,10 @@ const prelude = `(set-option :produce-models true)
 (assert (forall ((k Int)) (! (=> (>= k 0) (= (pow2 (+ k 1)) (* 2 (pow2 k)))) :pattern ((pow2 (+ k 1))))))
 (assert (forall ((a Int) (b Int)) (! (=> (and (<= 0 a) (<= a b)) (<= (pow2 a) (pow2 b))) :pattern ((pow2 a) (pow2 b)))))
 (declare-fun typeimpl (Int Int) Bool)
+(declare-fun tdivn (Int Int) Int)
+(declare-fun tmodn (Int Int) Int)
+(assert (forall ((a Int) (b Int)) (! (and (=> (and (>= a 0) (> b 0)) (and (<= 0 (tdivn a b)) (<= (tdivn a b) a))) (=> (and (<= a 0) (> b 0)) (and (<= a (tdivn a b)) (<= (tdivn a b) 0))) (=> (and (>= a 0) (< b 0)) (and (<= (- a) (tdivn a b)) (<= (tdivn a b) 0))) (=> (and (<= a 0) (< b 0)) (and (<= 0 (tdivn a b)) (<= (tdivn a b) (- a)))) (=> (= b 1) (= (tdivn a b) a)) (=> (and (> b 0) (>= a b)) (>= (tdivn a b) 1)) (=> (and (> b 0) (>= a 0) (< a b)) (= (tdivn a b) 0))) :pattern ((tdivn a b)))))
+(assert (forall ((a Int) (b Int)) (! (and (=> (and (>= a 0) (> b 0)) (and (<= 0 (tmodn a b)) (< (tmodn a b) b))) (=> (and (>= a 0) (< b 0)) (and (<= 0 (tmodn a b)) (< (tmodn a b) (- b)))) (=> (and (<= a 0) (> b 0)) (and (< (- b) (tmodn a b)) (<= (tmodn a b) 0))) (=> (and (<= a 0) (< b 0)) (and (< b (tmodn a b)) (<= (tmodn a b) 0)))) :pattern ((tmodn a b)))))
 (declare-fun refkind (Int) Int)
 (declare-fun refroot (Int) Int)
 (declare-fun sidx (Int Int) Int)
@@ -193,6 +198,25 @@ func (u *Unit) defineAtom(prefix, sort, term string) string {
 	n := u.freshConst(prefix, sort)
 	u.emit(fmt.Sprintf("(assert (= %s %s))", n, term))
 	return n
+}
+
+var numeralRe = regexp.MustCompile(`^(\d+|\(- \d+\))$`)
+
+// divTerm / modTerm: Go's truncating division. A symbolic divisor makes the term nonlinear, which
+// the solvers handle badly; it is then an uninterpreted function with sign and magnitude axioms
+// (tdivn), the same symbol on the code side and the spec side.
+func divTerm(a, b string) string {
+	if numeralRe.MatchString(b) {
+		return fmt.Sprintf("(tdiv %s %s)", a, b)
+	}
+	return fmt.Sprintf("(tdivn %s %s)", a, b)
+}
+
+func modTerm(a, b string) string {
+	if numeralRe.MatchString(b) {
+		return fmt.Sprintf("(tmod %s %s)", a, b)
+	}
+	return fmt.Sprintf("(tmodn %s %s)", a, b)
 }
 
 func (u *Unit) assume(term string) {
